@@ -94,8 +94,50 @@ def contents(run, tier):
     return {'content_traces': n, 'content_query_lines_checked': nx, 'content_distinct_query_shapes': len(shapes), 'content_sample': sample,
             'content_variants': len(vs), 'content_orders': list(ORDERS)}
 
+def many_services(run):
+    """Service tables of 1, 2, 31, 32, 33 and 40 dronecheck services: the services the daemon reports as configured (`? config`) are exactly those it asks
+    about a complete client, each once; a service it did not ask has no say (its NO is ignored); once every asked service has answered OK the client is accepted."""
+    b = build.build()
+    n = 0
+    for N in (1, 2, 31, 32, 33, 40):
+        services = [('s%02d.svc' % k, 'dronecheck') for k in range(N)]
+        conf = e1.conf_text(os.path.join(b, 'mods-wrapped'), services=services, timeout=0, rules=[])
+        lines = ['1 C 10.0.0.1 1111 10.9.9.9 6667', '1 N host1.example.net', '1 u ident1', '1 n Nick1', '1 U user1 :Real Name', '-1 ? config']
+        with e1.Server(conf, builddir=b) as srv:
+            res, status, err, ex = srv.trace([('L', l + '\n') for l in lines], 0)
+            if status != 'ok':
+                run.violation('C06.many-services/died', '%d services: the daemon ended with %s: %s' % (N, status, (err.strip().splitlines() or ['?'])[0][:160]), {'engine': 'E1-trace', 'conf': conf, 'lines': lines}, dedup='many-died')
+                continue
+            out = [l for r in res for l in r.out]
+            asked = [l.split(' ')[1] for l in out if l.startswith('X ')]
+            cfg = [l.split(' ')[3] for l in res[-1].out if l.startswith('A xquery : ')]
+            n += 1
+            if sorted(asked) != sorted(cfg) or len(set(asked)) != len(asked):
+                run.violation('C06.query-skipped', '%d services in the file: the daemon reports %d as configured and asked %d of them about a complete client (not asked: %s; asked twice: %s)'
+                              % (N, len(cfg), len(set(asked)), sorted(set(cfg) - set(asked))[:4], sorted(x for x in set(asked) if asked.count(x) > 1)[:4]),
+                              {'engine': 'E1-trace', 'conf': conf, 'lines': lines}, dedup='many-skipped')
+            unasked = [sname for sname, _ in services if sname not in asked]
+            tag = next((l.split(' ')[2] for l in out if l.startswith('X ')), '1_1')
+            for sname in unasked[:3]:
+                r2, st2, err2, ex2 = srv.trace([('L', l + '\n') for l in lines[:-1]] + [('L', '-1 X %s %s :NO not asked\n' % (sname, tag))], 0)
+                if st2 != 'ok' or (r2 and r2[-1].out):
+                    run.violation('C06.unasked-service-decides', '%d services in the file: a NO from %s, which was never asked about the client, produced %r (%s)' % (N, sname, r2[-1].out if r2 else None, st2),
+                                  {'engine': 'E1-trace', 'conf': conf, 'lines': lines[:-1] + ['-1 X %s %s :NO not asked' % (sname, tag)]}, dedup='many-unasked')
+            oks = [('L', '-1 X %s %s :OK\n' % (sname, tag)) for sname in asked]
+            r3, st3, err3, ex3 = srv.trace([('L', l + '\n') for l in lines[:-1]] + oks, 0)
+            verdicts = [l for r in r3 for l in r.out if l.startswith('D 1 ')]
+            if st3 != 'ok' or len(verdicts) != 1 or not r3[-1].out:
+                run.violation('C06.many-services/no-verdict', '%d services in the file, all %d asked services answer OK: verdict lines %r (%s)' % (N, len(asked), verdicts, st3),
+                              {'engine': 'E1-trace', 'conf': conf, 'lines': lines[:-1]}, dedup='many-verdict')
+    return {'service_table_sizes_tried': n}
+
+
 def main(tier):
-    return pcommon.run_plan('C06', tier, plan(tier), ('C06.',), NEED, extra_cov=lambda run: contents(run, tier))
+    def extra(run):
+        d = contents(run, tier)
+        d.update(many_services(run))
+        return d
+    return pcommon.run_plan('C06', tier, plan(tier), ('C06.',), NEED, extra_cov=extra)
 
 def replay(obj):
     r = obj['replay']
